@@ -1,0 +1,9 @@
+//go:build verif
+
+// Contracts checked by /verif/govc (comment-only; compiled only with -tags verif).
+package backend
+
+//@ contract func NewVerifierConfig
+//@   assigns
+//@ contract func NewProverConfig
+//@   assigns
